@@ -14,7 +14,8 @@ RULE = ('every decoded BSD syscall except the statement\'s exemption list (writt
         'word of the window. Oracle: error != 0 => the result part is exactly "errno: NAME(code)" or "errno: code" '
         'with that code, NAME in [A-Z0-9]+, and no rendering of the return word; error == 0 => no errno and every '
         'numeric literal of the result part is a rendering of END word 1 (pipe: words 1 and 2; booleans allowed). '
-        'Metamorphic: result part invariant under START changes, call part invariant under END changes. '
+        'Metamorphic: result part invariant under START changes, call part invariant under END changes; overlap: two '
+        'calls of one thread with crossing or nested windows each show the error of their OWN END. '
         'Non-trivial: error != 0 with a non-zero return word, or error == 0 with return word >= 2^31; distinct by '
         '(decoder, END tuple).')
 ASSUMPTIONS = ['exemptions: getpid getppid getuid geteuid getgid getegid getpgrp umask sync getdtablesize getlogin '
@@ -52,8 +53,11 @@ def prop_result(ctx, case):
             raise Violation(f'wrong-error-code:{name}', f'{name}: END error word {err} shown as {code}: {txt!r}')
         tail = m.group('tail')
         shown = set(NUMTOK.findall(tail))
-        if shown & renderings(e[1]) and e[1] != 0:
-            raise Violation(f'success-value-with-error:{name}', f'{name}: error {err} and still shows return word {e[1]}: {txt!r}')
+        for j in (1, 2, 3):
+            if e[j] != 0 and shown & renderings(e[j]):
+                raise Violation(f'success-value-with-error:{name}', f'{name}: error {err} and still shows END word {j} = {e[j]}: {txt!r}')
+        if re.search(r'[a-z_]+: ', tail) and name != 'BSC_fsgetpath':
+            raise Violation(f'success-value-with-error:{name}', f'{name}: error {err} and the result part carries another labelled value: {rest!r}')
     else:
         if 'errno' in rest:
             raise Violation(f'errno-without-error:{name}', f'{name}: END error word 0 but {rest!r}')
@@ -76,7 +80,36 @@ def prop_result(ctx, case):
     ctx.note([name, e[:2]], nontrivial=nt, classes=['error' if err else 'success', 'unknown-code' if err > 106 else 'darwin-code' if err else 'zero'])
 
 
-PROPS = {'result': prop_result}
+def prop_overlap(ctx, case):
+    """two calls of one thread whose windows overlap (crossing or nested): each result part comes from its OWN END"""
+    x, y, seed, ex, ey, crossing = case['x'], case['y'], case['seed'], case['ex'], case['ey'], case['crossing']
+    if x == y:
+        return
+    tid = 0x35
+    ax = [int.from_bytes(domains.project(x, 1, S.expand_words(seed + 4096, 0))[8 * i:8 * i + 8], 'little') for i in range(4)]
+    ay = [int.from_bytes(domains.project(y, 1, S.expand_words(seed + 4096, 1))[8 * i:8 * i + 8], 'little') for i in range(4)]
+    endx, endy = EV.E(tid, x, 2, args=[ex, 1111, 0, 0]), EV.E(tid, y, 2, args=[ey, 2222, 0, 0])
+    evs = [EV.E(tid, x, 1, args=ax), EV.E(tid, y, 1, args=ay)] + ([endx, endy] if crossing else [endy, endx])
+    parser = EV.new_traces_parser()
+    got = {}
+    for t in guard(lambda: list(parser.feed_generator(EV.realize(evs)))):
+        if t.ktraces[0].tid == tid:
+            got.setdefault(t.ktraces[0].eventid, []).append(guard(str, t))
+    for name, err in ((x, ex), (y, ey)):
+        texts = got.get(EV.eid(name), [])
+        if len(texts) != 1:
+            raise Violation(f'overlap-call-count', f'{x} and {y} overlapping ({"crossing" if crossing else "nested"}): {len(texts)} traces for {name}: {got}')
+        sc = TP.split_call(texts[0])
+        rest = sc[2] if sc else texts[0]
+        m = ERRNO_RE.match(rest)
+        if err and (not m or int(m.group('c1') or m.group('c2')) != err):
+            raise Violation('overlap-foreign-result', f'{name} ended with error {err} but is rendered {texts[0]!r} (windows of {x} and {y} overlap)')
+        if not err and 'errno' in rest:
+            raise Violation('overlap-foreign-result', f'{name} ended without error but is rendered {texts[0]!r} (windows of {x} and {y} overlap)')
+    ctx.note([x, y, ex, ey, crossing], nontrivial=True, classes=['overlap', 'crossing' if crossing else 'nested'])
+
+
+PROPS = {'result': prop_result, 'overlap': prop_overlap}
 
 
 def names():
@@ -92,6 +125,9 @@ def run(ctx):
         for i, n in enumerate(ns):
             cases.append({'name': n, 'seed': base + 17 * i + 1000003 * r, 'err': ERR_VALUES[(i * 7 + r * 13 + ctx.seed) % len(ERR_VALUES)]})
     ctx.run_enum('result', cases, prop_result, exhaustive_label='every non-exempt BSD decoder name (END tuples sampled)')
+    ov = st.fixed_dictionaries({'x': st.sampled_from(ns), 'y': st.sampled_from(ns), 'seed': st.integers(0, 2 ** 62),
+                                'ex': st.sampled_from([0, 9, 13, 35]), 'ey': st.sampled_from([0, 1, 2, 60]), 'crossing': st.booleans()})
+    ctx.run_given('overlap', ov, prop_overlap, ctx.n(500, 3000))
     strat = st.fixed_dictionaries({'name': st.sampled_from(ns), 'seed': st.integers(0, 2 ** 62),
                                    'err': st.one_of(st.sampled_from(ERR_VALUES), S.u64)})
     ctx.run_given('result', strat, prop_result, ctx.n(600, 3000))
